@@ -274,7 +274,11 @@ func (r *transport) handleCacheMiss(
 		return nil, err
 	}
 	ccResp := internal.ParseCCResponseDirectives(resp.Header)
-	if r.ce.CanStoreResponse(resp, ccReq, ccResp) {
+	// A 304 here answers the client's own conditional request (nothing was
+	// selected for validation): it must not be stored as a response in its own
+	// right, or a later unconditional GET would be answered with it.
+	if resp.StatusCode != http.StatusNotModified &&
+		r.ce.CanStoreResponse(resp, ccReq, ccResp) {
 		_ = r.rs.StoreResponse(req, resp, urlKey, refs, start, end, refIndex)
 	}
 	internal.CacheStatusMiss.ApplyTo(resp.Header)
